@@ -951,6 +951,7 @@ func describeInstr(p *Prog, in ssa.Instruction) string {
 type Effect struct {
 	Kind  string // call | store | return
 	Canon string
+	P, V  *Path // call path, or store address and value (for substitution when inlined)
 	Instr ssa.Instruction
 	File  string
 	Line  int
@@ -969,7 +970,8 @@ func (p *Prog) Effects(fn *ssa.Function) []*Effect {
 			switch x := in.(type) {
 			case ssa.CallInstruction:
 				full, _ := p.calleeName(x.Common())
-				e := &Effect{Kind: "call", Canon: env.callPath(x.Common()).String(), Instr: in, Callee: full}
+				cp := env.callPath(x.Common())
+				e := &Effect{Kind: "call", Canon: cp.String(), Instr: in, Callee: full, P: cp}
 				if _, isGo := in.(*ssa.Go); isGo {
 					e.Canon = "go " + e.Canon
 				}
@@ -986,7 +988,7 @@ func (p *Prog) Effects(fn *ssa.Function) []*Effect {
 				if isLocalAddr(x.Addr) {
 					continue
 				}
-				e := &Effect{Kind: "store", Canon: "store " + env.of(x.Addr).String() + " = " + env.of(x.Val).String(), Instr: in}
+				e := &Effect{Kind: "store", Canon: "store " + env.of(x.Addr).String() + " = " + env.of(x.Val).String(), Instr: in, P: env.of(x.Addr), V: env.of(x.Val)}
 				e.File, e.Line = p.Pos(x.Pos())
 				out = append(out, e)
 			case *ssa.MapUpdate:
@@ -1029,4 +1031,49 @@ func isLoopHeader(b *ssa.BasicBlock) bool {
 		}
 	}
 	return false
+}
+
+// EffectSetInlined: canonical effects of fn plus those of the module functions it calls statically
+// (one level), with the callee's parameters replaced by the caller's arguments — an effect moved
+// into a helper is still performed by the caller.
+func (p *Prog) EffectSetInlined(fn *ssa.Function) map[string]bool {
+	set := map[string]bool{}
+	for _, e := range p.Effects(fn) {
+		set[e.Canon] = true
+		if e.Kind != "call" || e.P == nil {
+			continue
+		}
+		ci, ok := e.Instr.(ssa.CallInstruction)
+		if !ok {
+			continue
+		}
+		g := ci.Common().StaticCallee()
+		if g == nil || g == fn || g.Blocks == nil || p.FuncName(g) == "" {
+			continue
+		}
+		hasRecv := g.Signature.Recv() != nil
+		args := e.P.Args
+		if e.P.Name == "dyn" || e.P.Name == "closure" {
+			continue
+		}
+		prefix := ""
+		if strings.HasPrefix(e.Canon, "defer ") {
+			prefix = ""
+		}
+		for _, ge := range p.Effects(g) {
+			switch {
+			case ge.Kind == "call" && ge.P != nil:
+				c := ge.P.Subst(args, hasRecv).String()
+				if strings.HasPrefix(ge.Canon, "defer ") {
+					c = "defer " + c
+				} else if strings.HasPrefix(ge.Canon, "go ") {
+					c = "go " + c
+				}
+				set[prefix+c] = true
+			case ge.Kind == "store" && ge.P != nil && ge.V != nil:
+				set["store "+ge.P.Subst(args, hasRecv).String()+" = "+ge.V.Subst(args, hasRecv).String()] = true
+			}
+		}
+	}
+	return set
 }
